@@ -638,13 +638,13 @@ Proof.
         + destruct (Hk (skipn (length (nkey k)) (c0 :: r))) as (A & B & C & D); auto.
           split; [now constructor|]. split; [constructor; auto; now rewrite B|].
           split; [simpl; unfold khead; now rewrite B|].
-          rewrite !kids_entries_cons. f_equal. unfold kid_entries. rewrite D. f_equal.
-          now apply kid_entries_same_key.
+          rewrite !kids_entries_cons. f_equal. unfold kid_entries. rewrite D.
+          now rewrite (kid_entries_same_key k _ B C).
         + repeat split; auto.
       - destruct (IHks HFs) as (A & B & C & D); auto. split; [now constructor|]. split; [now constructor|].
         split; [simpl; now rewrite C|]. rewrite !kids_entries_cons. now rewrite D. }
     destruct (G kids IH W1 W2) as (A & B & C & D). split.
-    + constructor; auto; [now rewrite C | eapply tok_last_heads; eauto].
+    + constructor; auto; [now rewrite C | apply (tok_last_heads kids); auto].
     + split; [reflexivity|]. split; [reflexivity|]. rewrite !paths_node. now rewrite D.
 Qed.
 
@@ -662,7 +662,7 @@ Proof.
   - simpl. destruct (upd_hooks_ok (install hp h partial) (tree R) pattern (inv_wf R HI)) as (A & _ & _ & D).
     apply Inv_tree_same_paths; auto. intros e. now rewrite D.
   - destruct (set_at (tree R) pattern flts 0 (IHooks (install (None, None) h partial)) nm) as [t'|e] eqn:Es; [|exact HI].
-    simpl. destruct (hook_install_lemma (tree R) pattern flts _ nm t' (inv_wf R HI)) as (A & B); [lia | exact Es|].
+    simpl. destruct (hook_install_lemma (tree R) pattern flts (install (None, None) h partial) nm t' (inv_wf R HI)) as (A & B); [lia | exact Es|].
     now apply Inv_tree_same_paths.
 Qed.
 
@@ -722,20 +722,49 @@ Proof.
   intros filt cs path cds Hcs R. apply resolve_eq_spec_lemma. apply Inv_hist; [apply Inv0 | exact Hcs].
 Qed.
 
-(* what each removal does to the index, in its plain reading *)
-Lemma remove_pattern_index_lemma : forall R pattern p,
-  al_get (routes (fst (rt_remove_pattern R pattern))) p =
-  match rd_remove (tree R) pattern false false with
-  | None => al_get (routes R) p
-  | Some _ =>
-    if ends_star pattern then (if prefixb (removelast pattern) p then None else al_get (routes R) p)
-    else if str_eqb p pattern then None else al_get (routes R) p
-  end.
+
+(* the invariant, spelled out, for every history *)
+Lemma history_invariant_lemma : forall (cs : list cmd),
+  Forall hist_cmd cs ->
+  let R := exec_cmds router0 cs in
+  wf (tree R) /\
+  (forall e, In e (paths (tree R)) <->
+             exists p d rt, al_get (routes R) p = Some d /\ nth_error (heap R) d = Some rt /\
+                            e = (fpat p (r_filters rt), (d, r_names rt))) /\
+  NoDup (map fst (routes R)).
 Proof.
-  intros R pattern p. unfold rt_remove_pattern. destruct (rd_remove (tree R) pattern false false); [|reflexivity].
-  destruct (ends_star pattern); simpl.
-  - rewrite (al_get_filter (routes R) (fun k => negb (prefixb (removelast pattern) k)) p).
-    now destruct (prefixb (removelast pattern) p).
-  - rewrite al_del_filter, (al_get_filter (routes R) (fun k => negb (str_eqb k pattern)) p).
-    now destruct (str_eqb p pattern).
+  intros cs Hcs R. destruct (Inv_hist cs router0 Inv0 Hcs) as [I1 I2 I3 I4]. fold R in I1, I2, I3, I4.
+  split; [exact I1|]. split; [exact I2 | exact I4].
 Qed.
+
+(* non-vacuity: the witnesses of F14, F15 and F33 replayed on the model *)
+Definition s_a := [97%N]. Definition s_ab := [97; 47; 98]%N. Definition s_abc := [97; 47; 98; 47; 99]%N.
+Definition s_get := [71; 69; 84]%N.
+Definition nofilt : fid -> str -> option (value * nat) := fun _ _ => None.
+
+Lemma c11_nonvacuous_lemma :
+  (* F14: a hook-only prefix survives the removal of the last route under it and fires again *)
+  (let R := exec_cmds router0 [CAddHook s_ab [] [] 50 false; CAdd 0 s_abc [] [] [s_get] 1 None false;
+                               CRemovePattern s_abc; CAdd 0 s_abc [] [] [s_get] 2 None false] in
+   resolve nofilt R (47%N :: s_abc) [s_get] = ROk 1 s_get 2 [] [(3, (Some 50, None))]) /\
+  (* F14: remove_hook on a hook-only node with children really removes it *)
+  (let R := exec_cmds router0 [CAddHook s_ab [] [] 50 false; CAdd 0 s_abc [] [] [s_get] 1 None false;
+                               CRemoveHook s_ab] in
+   resolve nofilt R (47%N :: s_abc) [s_get] = ROk 0 s_get 1 [] []) /\
+  (* F15: removing by one name drops the other names of the route *)
+  (let R := exec_cmds router0 [CAdd 0 s_a [] [] [s_get] 1 (Some [110; 49]%N) false;
+                               CAdd 0 s_a [] [] [[80; 79; 83; 84]%N] 2 (Some [110; 50]%N) false;
+                               CRemoveName [110; 49]%N] in
+   named R = [] /\ routes R = []) /\
+  (* F33: a route whose rule ends in '*' is removed exactly when removed by name *)
+  (let p_star := [112; 47; 42]%N in let p_q := [112; 47; 113]%N in
+   let R := exec_cmds router0 [CAdd 0 p_q [] [] [s_get] 1 None false;
+                               CAdd 1 p_star [] [] [s_get] 2 (Some [110]%N) false; CRemoveName [110]%N] in
+   map fst (routes R) = [p_q] /\ resolve nofilt R (47%N :: p_q) [s_get] = ROk 0 s_get 1 [] []) /\
+  (* prefix removal, pruning and merging, then a lookup *)
+  (let R := exec_cmds router0 [CAdd 0 s_abc [] [] [s_get] 1 None false; CAdd 1 s_ab [] [] [s_get] 2 None false;
+                               CAdd 2 s_a [] [] [s_get] 3 None false; CRemovePattern s_ab;
+                               CRemovePattern [97; 47; 42]%N] in
+   map fst (routes R) = [s_a] /\ resolve nofilt R (47%N :: s_a) [s_get] = ROk 2 s_get 3 [] [] /\
+   exists vs hs i, resolve nofilt R (47%N :: s_abc) [s_get] = R404 vs hs i).
+Proof. vm_compute. repeat split; eauto. Qed.
